@@ -179,6 +179,34 @@ func (x *secExec) signOracleTx(w, flag string, tx *wire.MsgTx) []string {
 	return toks
 }
 
+// autoOracle: the transaction the wallet built in the last `autosign` op, in the symbolic names of the history
+// (t=<number of outputs>=<tx>:<index>:<sequence>;…), followed by the signing facts for it.
+func (x *secExec) autoOracle(w, flag string) []string {
+	tx := x.lastAuto
+	x.lastAuto = nil
+	if tx == nil {
+		return nil
+	}
+	var ins []string
+	for _, in := range tx.TxIn {
+		ins = append(ins, fmt.Sprintf("%s:%d:%d", x.e.txName(in.PreviousOutPoint.Hash.String()), in.PreviousOutPoint.Index, in.Sequence))
+	}
+	toks := []string{fmt.Sprintf("t=%d=%s", len(tx.TxOut), strings.Join(ins, ";"))}
+	return append(toks, x.signOracleTx(w, flag, tx)...)
+}
+
+// secStableToks drops the tokens that depend on the order of the outputs of a wallet-built transaction
+func secStableToks(toks []string) []string {
+	var out []string
+	for _, t := range toks {
+		if strings.HasPrefix(t, "d:") || strings.HasPrefix(t, "g:") || strings.HasPrefix(t, "w:") {
+			continue
+		}
+		out = append(out, t)
+	}
+	return out
+}
+
 // ---------------------------------------------------------------- generation time
 
 // secOracleCapture redirects the op lines of the generator to memory; the returned function replays them, history by
@@ -214,6 +242,12 @@ func secOracleCapture(g *Gen) func() {
 				if toks := x.signOracle(a[1], flagTok(a[3]), a[4]); len(toks) > 0 {
 					line += " " + strings.Join(toks, " ")
 					g.Stats["sign-oracle-tokens"]++
+				}
+			}
+			if a[0] == "autosign" && len(a) >= 6 {
+				if toks := x.autoOracle(a[1], flagTok(a[3])); len(toks) > 0 {
+					line += " " + strings.Join(toks, " ")
+					g.Stats["auto-oracle-tokens"]++
 				}
 			}
 			fmt.Fprintln(real, line)
